@@ -16,13 +16,12 @@ import tempfile
 import vlib
 
 PROOF_MODULES = []
-OBLIGATIONS_ALL = [
+OBLIGATIONS = [
     "C15/P_cprint_parse.v", "C15/P_cprint_parse_guarded.v", "C15/P_cprint_parse_refuted.v",
-    "C15/P_no_int_div_guarded.v", "C15/P_no_int_div_refuted.v", "C15/P_ctree_sound.v",
-    "C15/P_nonvacuous.v",
+    "C15/P_no_int_div_guarded.v", "C15/P_no_int_div_refuted.v",
+    "C15/P_ctree_sound_add_partial.v", "C15/P_ctree_sound_mul_partial.v", "C15/P_nonvacuous.v",
 ]
 
-OBLIGATIONS = []
 
 SYMS = ["x", "y", "z", "w", "ab"]
 C_FUNCS1 = ["sin", "cos", "tan", "asin", "acos", "atan", "sinh", "cosh", "tanh", "asinh", "acosh", "atanh",
@@ -502,6 +501,8 @@ def explore(ctx, drv, model, cases, search=False):
                       or not close_enough(dvals[k], ref, 1e-7, 1e-9) or close_enough(c, ref, 0.2, 0.0))
             if not ok:
                 key = classify(r, "value") if kind == "d" else "C15/float-wrong-value"
+                if any(int(m) >= 2 ** 63 for m in re.findall(r"(?<![A-Za-z0-9_.])(\d+)(?![\d.e])", text)):
+                    key = "C15/integer-literal-too-large"
                 if kind == "d" and key == "C15/wrong-value" and c != "FPE" and math.isinf(c) and "e+308" in text:
                     key = "C15/double-max-prints-as-inf"
                 ctx.violation(key,
@@ -521,7 +522,7 @@ def explore(ctx, drv, model, cases, search=False):
 # C15's own Coq files in dependency order: until they are listed in coq/_CoqProject the check compiles
 # them itself, directly with coqc, whenever a source or a shared library they load has changed
 OWN_FILES = ["C15/GenCNames.v", "C15/CSyntax.v", "C15/CParse.v", "C15/CNum.v", "C15/CModel.v", "C15/CSpec.v",
-             "C15/CParseProofs.v", "C15/CModelProofs.v", "C15/CSound.v"]
+             "C15/CParseProofs.v", "C15/CModelProofs.v", "C15/CIntDiv.v", "C15/CSound.v"]
 SHARED_DEPS = ["Base/Prelude.vo", "Base/Word64.vo", "Num/NumDefs.vo", "Gen/TypeCodes.vo", "Expr/ExprDefs.vo",
                "Expr/Hash.vo", "Expr/Cmp.vo", "Expr/Guards.vo", "Expr/Wf.vo", "Expr/IO.vo"]
 
